@@ -294,7 +294,8 @@ func regStatic(w *core.Writer) {
 		{"RegEmbSecure", RegEmbSecure{}}, {"RegEmbTagged", RegEmbTagged{}}, {"*RegNamedOK", &RegNamedOK{}}, {"RegEmbIgnore", RegEmbIgnore{}}, {"RegEmbPlain", RegEmbPlain{}},
 		{"RegUnexpField", RegUnexpField{}}, {"RegUnexpPtrField", &RegUnexpPtrField{}}, {"RegUnexpLeaf", RegUnexpLeaf{}},
 		{"RegUnexpLeafTagged", RegUnexpLeafTagged{}}, {"RegExportedEmb", RegExportedEmb{}}, {"RegNamed", &RegNamed{}},
-		{"RegBelowSlice", RegBelowSlice{}}, {"EmbReq", EmbReq{}}, {"*EmbHolder", &EmbHolder{}}, {"*StaticReq", &StaticReq{}},
+		{"RegBelowSlice", RegBelowSlice{}}, {"MReq", MReq{}}, {"*PReq", &PReq{}}, {"Wrap", Wrap{}}, {"*WrapP", &WrapP{}}, {"*Carrier", &Carrier{}},
+		{"TReq", TReq{}}, {"SReq", SReq{}}, {"*EReq", &EReq{}}, {"EmbReq", EmbReq{}}, {"*EmbHolder", &EmbHolder{}}, {"*StaticReq", &StaticReq{}},
 	}
 	for i, ty := range types {
 		for _, asReq := range []bool{true, false} {
